@@ -276,10 +276,25 @@ pub fn c09(tier: &str, seed: u64) -> i32 {
         }
     }
     eprintln!("[C09] end-to-end: lengths={} checks={} {:.1}s", lens_done, evals, ctx.run.elapsed() - t1);
+    // (c) records that fill their slot exactly while an offset in them grows by a byte: histories from
+    // seeded images whose key / value file ends just below 16 KiB (built by the real code), two colliding keys
+    // of 11 and 10 bytes (records of exactly 16 bytes); every entry must stay readable and inside its slot
+    if ctx.run.violations.is_empty() {
+        use crate::decoder::Clause;
+        let clauses = crate::engine_a::clause_mask(&[Clause::Overflow, Clause::Tiling, Clause::ValueRef, Clause::Chain]);
+        let specs = vec![
+            crate::props_c08::SeedSpec { file: "key", boundary: 16 * 1024, eps: 16, free_slots: 2, val_pad: 0 },
+            crate::props_c08::SeedSpec { file: "val", boundary: 16 * 1024, eps: 16, free_slots: 0, val_pad: 0 },
+        ];
+        crate::props_c08::seeded_group(&mut ctx, "C09", crate::engine_a::O_API | crate::engine_a::O_DEC | crate::engine_a::O_DEC_CONTENTS, clauses, 2, vec![3, 200], &specs, 30_000, 6.0);
+        ctx.run.add("seeded_closure_states", ctx.states as i64);
+        ctx.run.add("seeded_closure_transitions", ctx.transitions as i64);
+        ctx.pool.reinit(vec![]);
+    }
     let total = ctx.run.get("arith_value_lengths") + ctx.run.get("arith_key_evaluations") + evals as i64;
     ctx.run.set("evaluations", J::Int(total));
     ctx.run.set("distinct_nontrivial", J::Int(ctx.run.get("arith_tight_fits") + lens_done as i64));
-    ctx.run.set("rule", J::s("(a) complete enumeration of the slot arithmetic through the layout-probe hook (the crate's own encoded_piece_size + roundup): every value length 0..=2^24 and every key length 0..=2^16 (plus 273 lengths each around 2^17, 2^20, 2^21, 2^24) x every ordered pair of (value offset, next offset) from the set of all vu64 width boundaries +-8 for the raw and the /8 encoding; the chosen slot must be a legal class, a multiple of 8 and >= the independently computed exact record length (own vu64 length function, size field computed from the chosen slot). (b) end-to-end on the real write path for every length of the listed ranges: sentinel, X(L), sentinel, X overwritten with L+1, L-1, L (values) / deleted and re-inserted one byte longer and shorter (keys); all three entries read back byte for byte after every step; after close the files must tile without overlap with zero padding (independent decoder) and re-open. non-trivial = arithmetic cases in which the record fills its slot to within 7 bytes + end-to-end lengths"));
+    ctx.run.set("rule", J::s("(a) complete enumeration of the slot arithmetic through the layout-probe hook (the crate's own encoded_piece_size + roundup): every value length 0..=2^24 and every key length 0..=2^16 (plus 273 lengths each around 2^17, 2^20, 2^21, 2^24) x every ordered pair of (value offset, next offset) from the set of all vu64 width boundaries +-8 for the raw and the /8 encoding; the chosen slot must be a legal class, a multiple of 8 and >= the independently computed exact record length (own vu64 length function, size field computed from the chosen slot). (b) end-to-end on the real write path for every length of the listed ranges: sentinel, X(L), sentinel, X overwritten with L+1, L-1, L (values) / deleted and re-inserted one byte longer and shorter (keys); all three entries read back byte for byte after every step; after close the files must tile without overlap with zero padding (independent decoder) and re-open. (c) explicit-state closures (engine A) from two seeded images whose key resp. value file ends 16 bytes below 16 KiB, over two colliding keys whose records fill a 16-byte slot exactly: an offset inside such a record grows by a byte, the record must move and every entry stay readable and inside its slot. non-trivial = arithmetic cases in which the record fills its slot to within 7 bytes + end-to-end lengths"));
     ctx.run.set("end_to_end", J::obj(vec![("value_lengths", J::Int(val_lens.len() as i64)), ("key_lengths", J::Int(key_lens.len() as i64)), ("checks", J::Int(evals as i64))]));
     ctx.run.sample(J::s("value length 16777216: slot chosen by the crate vs exact record length 1+4+16777216"));
     ctx.run.sample(J::s("key length 65536 x value offset 2^21-8 x next offset 8*2^14"));
